@@ -607,3 +607,377 @@ Proof.
   - destruct (num x), (num y), (sum_num l); try reflexivity. f_equal. lia.
   - congruence.
 Qed.
+
+(* ------------------------------------------------------------------------------------------- *)
+(* performance.remove_redundant_chained_calls *)
+
+Lemma eval_args_plain_cons : forall w en x tl tr, plain x = true ->
+  eval_args (eval w) en (x :: tl) tr =
+  match eval w x en tr with
+  | Some (v, tr1) => match eval_args (eval w) en tl tr1 with
+                     | Some (rest, tr2) => Some ((None, v) :: rest, tr2)
+                     | None => None
+                     end
+  | None => None
+  end.
+Proof. intros w en x tl tr H. destruct x; try discriminate; reflexivity. Qed.
+
+Lemma eval_args_kws : forall w en kws tr rest tr2,
+  forallb is_kw kws = true -> eval_args (eval w) en kws tr = Some (rest, tr2) ->
+  fst (split_kws rest) = [].
+Proof.
+  intros w en. induction kws as [|k kws IH]; intros tr rest tr2 Hk He.
+  - injection He as <- _. reflexivity.
+  - cbn in Hk. apply andb_true_iff in Hk as [Hk1 Hk2]. destruct k; try discriminate.
+    cbn [eval_args] in He. destruct (eval w k0 en tr) as [[v tr1]|]; [|discriminate].
+    destruct (eval_args (eval w) en kws tr1) as [[rest' tr2']|] eqn:E; [|discriminate].
+    injection He as <- _. cbn. specialize (IH _ _ _ Hk2 E).
+    destruct (split_kws rest') as [a b]. cbn in *. assumption.
+Qed.
+
+(* the calls under which the outer call only looks at the items of its argument *)
+Definition items_outer (b : bi) : bool :=
+  match b with BSorted | BList | BSet | BIter | BTuple | BSum => true | _ => false end.
+
+Lemma outer_items : forall outer r v kw,
+  items_outer outer = true -> items_of r = items_of v ->
+  bapply outer [r] kw = bapply outer [v] kw.
+Proof.
+  intros outer r v kw Ho Hi. destruct outer; try discriminate; cbn [bapply];
+    try (destruct kw; [rewrite Hi; reflexivity | reflexivity]).
+  rewrite Hi. reflexivity.
+Qed.
+
+Definition exact_inner (outer inner : bi) : bool :=
+  match outer, inner with
+  | (BSorted | BList | BSet | BIter | BTuple | BSum), (BList | BTuple | BIter) => true
+  | BSum, (BSorted | BReversed) => true
+  | _, _ => false
+  end.
+
+Lemma pair_exact : forall outer inner v r,
+  exact_inner outer inner = true -> bapply inner [v] [] = Some r ->
+  forall kw res, bapply outer [r] kw = Some res -> bapply outer [v] kw = Some res.
+Proof.
+  intros outer inner v r He Hr kw res Hres.
+  assert (Hwrap : inner = BList \/ inner = BTuple \/ inner = BIter -> items_outer outer = true ->
+                  bapply outer [v] kw = Some res).
+  { intros Hi Ho. rewrite <- Hres. symmetry. apply outer_items; [assumption|].
+    destruct Hi as [-> | [-> | ->]]; cbn in Hr; destruct (items_of v); try discriminate;
+      injection Hr as <-; reflexivity. }
+  destruct outer, inner; try discriminate; try (apply Hwrap; [tauto | reflexivity]).
+  - (* sum(sorted(v)) *)
+    cbn in Hr. destruct (items_of v) as [l|] eqn:Ei; [|discriminate].
+    unfold py_sorted in Hr. destruct (sortable l); [|discriminate]. injection Hr as <-.
+    destruct kw; [|discriminate]. cbn in Hres. cbn. rewrite Ei.
+    rewrite (sum_num_perm _ _ (sort_perm l)) in Hres. assumption.
+  - (* sum(reversed(v)) *)
+    destruct kw; [|cbn in Hres; destruct r; discriminate].
+    destruct v; try discriminate; cbn in Hr; injection Hr as <-; cbn in Hres; cbn;
+      rewrite <- (sum_num_perm _ _ (Permutation_rev _)) in Hres; assumption.
+Qed.
+
+Fixpoint strip_exact (outer : bi) (a : expr) : bool :=
+  match a with
+  | EBi inner [x] => if redundant_inner outer inner && plain x
+                     then exact_inner outer inner && strip_exact outer x else true
+  | _ => true
+  end.
+
+Lemma plain_strip : forall outer a, plain a = true -> plain (strip outer a) = true.
+Proof.
+  intros outer. induction a using expr_ind'; intros Hp; try assumption.
+  destruct args as [|x [|y tl]]; try assumption. cbn [strip].
+  destruct (redundant_inner outer b && plain x) eqn:E; [|assumption].
+  apply andb_true_iff in E as [_ Hx]. inversion H; subst. auto.
+Qed.
+
+Lemma strip_sound : forall w outer a,
+  strip_exact outer a = true ->
+  forall en tr v tr', eval w a en tr = Some (v, tr') ->
+  exists v', eval w (strip outer a) en tr = Some (v', tr') /\
+             forall kw res, bapply outer [v] kw = Some res -> bapply outer [v'] kw = Some res.
+Proof.
+  intros w outer. induction a using expr_ind'; intros Hs en tr v tr' Hev;
+    try (exists v; split; [exact Hev | auto]).
+  destruct args as [|x [|y tl]]; try (exists v; split; [exact Hev | auto]).
+  cbn [strip strip_exact] in *. destruct (redundant_inner outer b && plain x) eqn:E;
+    [|exists v; split; [exact Hev | auto]].
+  apply andb_true_iff in E as [Hred Hx]. apply andb_true_iff in Hs as [Hex Hs].
+  rewrite eval_EBi, (eval_args_plain_cons _ _ _ _ _ Hx) in Hev.
+  destruct (eval w x en tr) as [[v0 tr1]|] eqn:Ex; [|discriminate]. cbn in Hev.
+  destruct (bapply b [v0] []) as [r|] eqn:Er; [|discriminate]. injection Hev as <- <-.
+  inversion H as [|? ? Hx0 _]; subst. destruct (Hx0 Hs _ _ _ _ Ex) as [v' [Hv' Hlaw]].
+  exists v'. split; [exact Hv'|]. intros kw res Hres. apply Hlaw. eapply pair_exact; eassumption.
+Qed.
+
+(* outer(inner(...(x)), kws) -> outer(x, kws): if every skipped call is one of list/tuple/iter (or
+   sorted/reversed under sum), a normally terminating evaluation keeps its value and its call trace *)
+Theorem chain1_exact : forall w e e',
+  rw_chain1 e = Some e' ->
+  (match e with EBi outer (a0 :: _) => strip_exact outer a0 | _ => false end) = true ->
+  forall en tr r, eval w e en tr = Some r -> eval w e' en tr = Some r.
+Proof.
+  intros w e e' Hr Hex en tr r Hev. destruct e; try discriminate. destruct args as [|a0 kws]; [discriminate|].
+  cbn [rw_chain1] in Hr. destruct (is_outer b && forallb is_kw kws) eqn:E1; [|discriminate].
+  apply andb_true_iff in E1 as [_ Hkws].
+  destruct a0; try discriminate. destruct args as [|x ikws]; [discriminate|].
+  destruct (redundant_inner b b0 && negb (is_kw x) && forallb is_kw ikws) eqn:E2; [|discriminate].
+  destruct ikws; [|discriminate]. destruct (plain x) eqn:Hx; [|discriminate]. injection Hr as <-.
+  apply andb_true_iff in E2 as [E2 _]. apply andb_true_iff in E2 as [Hred _].
+  assert (Hstrip : strip b (EBi b0 [x]) = strip b x) by (cbn [strip]; rewrite Hred, Hx; reflexivity).
+  rewrite <- Hstrip.
+  rewrite eval_EBi in *. rewrite eval_args_plain_cons in Hev by reflexivity.
+  rewrite eval_args_plain_cons by (apply plain_strip; reflexivity).
+  destruct (eval w (EBi b0 [x]) en tr) as [[v tr1]|] eqn:Ea; [|discriminate].
+  destruct (strip_sound w b _ Hex _ _ _ _ Ea) as [v' [Hv' Hlaw]]. rewrite Hv'.
+  destruct (eval_args (eval w) en kws tr1) as [[rest tr2]|] eqn:Ek; [|discriminate].
+  cbn [fst snd split_kws] in *. pose proof (eval_args_kws _ _ _ _ _ _ Hkws Ek) as Hpos.
+  destruct (split_kws rest) as [pos kwl]. cbn [fst snd] in *. subst pos.
+  destruct (bapply b [v] kwl) as [res|] eqn:Eb; [|discriminate]. rewrite (Hlaw _ _ Eb). assumption.
+Qed.
+
+Example chain1_example :
+  rw_chain1 (EBi BSorted [EBi BList [EBi BTuple [ECall 1 []]]; EKw KReverse (EName 2)])
+  = Some (EBi BSorted [ECall 1 []; EKw KReverse (EName 2)])
+  /\ strip_exact BSorted (EBi BList [EBi BTuple [ECall 1 []]]) = true.
+Proof. split; reflexivity. Qed.
+
+(* ---- the pairs that are only right when equal elements are indistinguishable ---------------- *)
+
+Definition items_indist (v : val) : bool :=
+  match items_of v with Some l => indistb l | None => true end.
+
+Lemma sortable_perm_eq : forall l l', Permutation l l' -> sortable l = sortable l'.
+Proof.
+  intros l l' Hp. destruct (sortable l) eqn:E1, (sortable l') eqn:E2; try reflexivity.
+  - rewrite (sortable_perm _ _ Hp E1) in E2. discriminate.
+  - rewrite (sortable_perm _ _ (Permutation_sym Hp) E2) in E1. discriminate.
+Qed.
+
+Lemma py_sorted_perm : forall r l l', Permutation l l' -> indist l -> py_sorted r l = py_sorted r l'.
+Proof.
+  intros r l l' Hp Hi. unfold py_sorted. rewrite (sortable_perm_eq _ _ Hp).
+  destruct (sortable l'); [|reflexivity]. f_equal. f_equal. destruct r.
+  - f_equal. apply sort_perm_inv.
+    + eapply perm_trans; [apply Permutation_sym, Permutation_rev|].
+      eapply perm_trans; [exact Hp | apply Permutation_rev].
+    + eapply indist_perm; [apply Permutation_rev | assumption].
+  - apply sort_perm_inv; assumption.
+Qed.
+
+(* sorted(reversed(v), kws) = sorted(v, kws) and sorted(sorted(v), kws) = sorted(v, kws) when equal
+   elements of v are identical *)
+Lemma sorted_inner_partial : forall inner v r kw,
+  inner = BReversed \/ inner = BSorted ->
+  bapply inner [v] [] = Some r -> items_indist v = true ->
+  bapply BSorted [r] kw = bapply BSorted [v] kw.
+Proof.
+  intros inner v r kw Hin Hr Hg. unfold items_indist in Hg. cbn [bapply].
+  destruct (sorted_kws kw) as [rv|]; [|reflexivity].
+  destruct Hin as [-> | ->].
+  - destruct v; try discriminate; cbn in Hr; injection Hr as <-; cbn [items_of] in *;
+      symmetry; apply py_sorted_perm; try apply Permutation_rev; apply indistb_spec; assumption.
+  - cbn in Hr. destruct (items_of v) as [l|]; [|discriminate].
+    unfold py_sorted in Hr. destruct (sortable l); [|discriminate]. injection Hr as <-. cbn [items_of].
+    symmetry. apply py_sorted_perm; [apply Permutation_sym, sort_perm | apply indistb_spec; assumption].
+Qed.
+
+Theorem chain1_sorted_partial : forall w inner x kws,
+  inner = BReversed \/ inner = BSorted -> plain x = true -> forallb is_kw kws = true ->
+  forall en tr v tr1, eval w x en tr = Some (v, tr1) -> items_indist v = true ->
+  forall r, eval w (EBi BSorted (EBi inner [x] :: kws)) en tr = Some r ->
+            eval w (EBi BSorted (x :: kws)) en tr = Some r.
+Proof.
+  intros w inner x kws Hin Hx Hkws en tr v tr1 Hev Hg r0 Ho.
+  rewrite eval_EBi in *. rewrite eval_args_plain_cons by assumption.
+  rewrite (eval_args_plain_cons w en (EBi inner [x])) in Ho by reflexivity.
+  rewrite eval_EBi, (eval_args_plain_cons _ _ _ _ _ Hx), Hev in Ho. cbn [eval_args fst snd split_kws] in Ho.
+  rewrite Hev. destruct (bapply inner [v] []) as [r|] eqn:Er; [|discriminate].
+  destruct (eval_args (eval w) en kws tr1) as [[rest tr2]|] eqn:Ek; [|discriminate].
+  cbn [fst snd split_kws] in *. pose proof (eval_args_kws _ _ _ _ _ _ Hkws Ek) as Hpos.
+  destruct (split_kws rest) as [pos kwl]. cbn [fst snd] in *. subst pos.
+  rewrite <- (sorted_inner_partial inner v r kwl Hin Er Hg). assumption.
+Qed.
+
+(* ... and wrong otherwise: the sort is stable *)
+Theorem chain1_sorted_reversed_refuted :
+  exists e e' en, rw_chain1 e = Some e' /\
+    forall w, eval w e en [] = Some (VList [VInt 1; VBool true], []) /\
+              eval w e' en [] = Some (VList [VBool true; VInt 1], []).
+Proof.
+  exists (EBi BSorted [EBi BReversed [EName 1]]), (EBi BSorted [EName 1]),
+    (mkenv [(1%nat, VList [VBool true; VInt 1])]).
+  split; [reflexivity|]. intros w. split; reflexivity.
+Qed.
+
+Theorem chain1_set_reversed_refuted :
+  exists e e' en, rw_chain1 e = Some e' /\
+    forall w, eval w e en [] = Some (VSet [VInt 1], []) /\ eval w e' en [] = Some (VSet [VBool true], []).
+Proof.
+  exists (EBi BSet [EBi BReversed [EName 1]]), (EBi BSet [EName 1]),
+    (mkenv [(1%nat, VList [VBool true; VInt 1])]).
+  split; [reflexivity|]. intros w. split; reflexivity.
+Qed.
+
+Example chain1_sorted_partial_example :
+  rw_chain1 (EBi BSorted [EBi BReversed [EName 1]; EKw KReverse (EConst (ABool true))])
+  = Some (EBi BSorted [EName 1; EKw KReverse (EConst (ABool true))])
+  /\ items_indist (VList [VInt 3; VInt 1; VBool false]) = true.
+Proof. split; reflexivity. Qed.
+
+(* ---- loop 2: outer(inner(...)) -> inner(...) ------------------------------------------------ *)
+
+Inductive nodupk : list val -> Prop :=
+| nd_nil : nodupk []
+| nd_snoc : forall s v, nodupk s -> key_in v s = false -> nodupk (s ++ [v]).
+
+Lemma set_add_nodupk : forall s v, nodupk s -> nodupk (set_add s v).
+Proof.
+  intros s v H. unfold set_add. fold (key_in v s). destruct (key_in v s) eqn:E; [assumption|].
+  constructor; assumption.
+Qed.
+
+Lemma fold_set_add_nodupk : forall l s, nodupk s -> nodupk (fold_left set_add l s).
+Proof. induction l as [|x l IH]; intros s H; [assumption|]. cbn. apply IH, set_add_nodupk, H. Qed.
+
+Lemma nodupk_rebuild : forall s, nodupk s -> fold_left set_add s [] = s.
+Proof.
+  induction 1 as [|s v Hs IH Hv]; [reflexivity|].
+  rewrite fold_left_app, IH. cbn. unfold set_add. fold (key_in v s). rewrite Hv. reflexivity.
+Qed.
+
+Lemma fold_set_add_hashable : forall l s,
+  forallb hashable l = true -> forallb hashable s = true -> forallb hashable (fold_left set_add l s) = true.
+Proof.
+  induction l as [|x l IH]; intros s Hl Hs; [assumption|]. cbn in Hl. apply andb_true_iff in Hl as [Hx Hl].
+  cbn. apply IH; [assumption|]. unfold set_add. destruct (existsb (key_eqb x) s); [assumption|].
+  rewrite forallb_app, Hs. cbn. rewrite Hx. reflexivity.
+Qed.
+
+(* set(s) of a set value s is s *)
+Lemma mkset_idem : forall l s, mkset l = Some (VSet s) -> mkset s = Some (VSet s).
+Proof.
+  intros l s H. unfold mkset in *. destruct (forallb hashable l) eqn:Hh; [|discriminate].
+  injection H as <-. rewrite fold_set_add_hashable by (assumption || reflexivity).
+  rewrite nodupk_rebuild; [reflexivity|]. apply fold_set_add_nodupk. constructor.
+Qed.
+
+Lemma chain2_val : forall inner outer pos kw r res,
+  redundant_outer inner outer = true -> bapply inner pos kw = Some r ->
+  bapply outer [r] [] = Some res -> res = r.
+Proof.
+  intros inner outer pos kw r res Hred Hr Hres.
+  destruct inner, outer; try discriminate.
+  - (* list(list(..)) *)
+    destruct pos as [|v [|? ?]], kw; try discriminate; cbn in Hr.
+    + injection Hr as <-. cbn in Hres. congruence.
+    + destruct (items_of v); [|discriminate]. injection Hr as <-. cbn in Hres. congruence.
+  - (* tuple(tuple(..)) *)
+    destruct pos as [|v [|? ?]], kw; try discriminate; cbn in Hr.
+    + injection Hr as <-. cbn in Hres. congruence.
+    + destruct (items_of v); [|discriminate]. injection Hr as <-. cbn in Hres. congruence.
+  - (* set(set(..)) *)
+    destruct pos as [|v [|? ?]], kw; try discriminate; cbn in Hr.
+    + injection Hr as <-. cbn in Hres. congruence.
+    + destruct (items_of v) as [l|]; [|discriminate]. cbn [bapply items_of] in Hres.
+      assert (exists s, r = VSet s) as [s ->].
+      { unfold mkset in Hr. destruct (forallb hashable l); [|discriminate]. injection Hr as <-. eauto. }
+      cbn [items_of] in Hres. rewrite (mkset_idem _ _ Hr) in Hres. congruence.
+  - (* iter(iter(..)) *)
+    destruct pos as [|v [|? ?]], kw; try discriminate; cbn in Hr.
+    destruct (items_of v); [|discriminate]. injection Hr as <-. cbn in Hres. congruence.
+  - (* list(sorted(..)) *)
+    destruct pos as [|v [|? ?]]; try discriminate; cbn in Hr.
+    destruct (sorted_kws kw), (items_of v) as [l|]; try discriminate.
+    unfold py_sorted in Hr. destruct (sortable l); [|discriminate]. injection Hr as <-. cbn in Hres. congruence.
+Qed.
+
+Theorem chain2_sound : forall w e e',
+  rw_chain2 e = Some e' ->
+  forall en tr r, eval w e en tr = Some r -> eval w e' en tr = Some r.
+Proof.
+  intros w e e' Hr en tr r Hev. destruct e; try discriminate. destruct args as [|a0 [|? ?]]; try discriminate.
+  cbn [rw_chain2] in Hr. destruct a0; try discriminate. destruct args as [|x ikws]; [discriminate|].
+  destruct (redundant_outer b0 b && negb (is_kw x) && forallb is_kw ikws) eqn:E; [|discriminate].
+  injection Hr as <-. apply andb_true_iff in E as [E _]. apply andb_true_iff in E as [Hred _].
+  rewrite eval_EBi in Hev. rewrite eval_args_plain_cons in Hev by reflexivity.
+  destruct (eval w (EBi b0 (x :: ikws)) en tr) as [[v tr1]|] eqn:Ea; [|discriminate].
+  cbn [eval_args fst snd split_kws] in Hev. destruct (bapply b [v] []) as [res|] eqn:Eb; [|discriminate].
+  injection Hev as <-. f_equal. f_equal.
+  rewrite eval_EBi in Ea. destruct (eval_args (eval w) en (x :: ikws) tr) as [[vs tr2]|]; [|discriminate].
+  destruct (bapply b0 (fst (split_kws vs)) (snd (split_kws vs))) as [r0|] eqn:Ei; [|discriminate].
+  injection Ea as <- <-. symmetry. eapply chain2_val; eassumption.
+Qed.
+
+(* ---- loop 3: reversed(sorted(x)) -> sorted(x, reverse=True) --------------------------------- *)
+
+Definition rev_sorted (x : expr) : expr := EBi BReversed [EBi BSorted [x]].
+Definition sorted_rev (x : expr) : expr := EBi BSorted [x; EKw KReverse (EConst (ABool true))].
+
+Lemma chain3_shape : forall x, plain x = true -> rw_chain3 (rev_sorted x) = Some (sorted_rev x).
+Proof. intros x H. destruct x; try discriminate; reflexivity. Qed.
+
+Lemma eval_rev_sorted : forall w x en tr, plain x = true ->
+  eval w (rev_sorted x) en tr =
+  match eval w x en tr with
+  | Some (v, tr1) => match items_of v with
+                     | Some l => if sortable l then Some (VIter (rev (sort l)), tr1) else None
+                     | None => None
+                     end
+  | None => None
+  end.
+Proof.
+  intros w x en tr Hx. unfold rev_sorted. rewrite eval_EBi, eval_args_plain_cons by reflexivity.
+  rewrite eval_EBi, (eval_args_plain_cons _ _ _ _ _ Hx).
+  destruct (eval w x en tr) as [[v tr1]|]; [|reflexivity]. cbn [eval_args fst snd split_kws bapply sorted_kws].
+  destruct (items_of v) as [l|]; [|reflexivity]. unfold py_sorted. destruct (sortable l); reflexivity.
+Qed.
+
+Lemma eval_sorted_rev : forall w x en tr, plain x = true ->
+  eval w (sorted_rev x) en tr =
+  match eval w x en tr with
+  | Some (v, tr1) => match items_of v with
+                     | Some l => if sortable l then Some (VList (rev (sort (rev l))), tr1) else None
+                     | None => None
+                     end
+  | None => None
+  end.
+Proof.
+  intros w x en tr Hx. unfold sorted_rev. rewrite eval_EBi, (eval_args_plain_cons _ _ _ _ _ Hx).
+  destruct (eval w x en tr) as [[v tr1]|]; [|reflexivity].
+  cbn [eval_args eval val_of_atom fst snd split_kws bapply sorted_kws KReverse Nat.eqb].
+  destruct (items_of v) as [l|]; [|reflexivity]. unfold py_sorted. destruct (sortable l); reflexivity.
+Qed.
+
+(* the rewritten expression never has the same value: an iterator became a list *)
+Theorem chain3_refuted_type : forall w x en tr r t r' t', plain x = true ->
+  eval w (rev_sorted x) en tr = Some (r, t) -> eval w (sorted_rev x) en tr = Some (r', t') -> r <> r'.
+Proof.
+  intros w x en tr r t r' t' Hx H1 H2. rewrite eval_rev_sorted in H1 by assumption.
+  rewrite eval_sorted_rev in H2 by assumption.
+  destruct (eval w x en tr) as [[v tr1]|]; [|discriminate]. destruct (items_of v) as [l|]; [|discriminate].
+  destruct (sortable l); [|discriminate]. injection H1 as <- _. injection H2 as <- _. discriminate.
+Qed.
+
+(* as an iterable it yields the same items, provided equal elements are identical *)
+Theorem chain3_partial_items : forall w x en tr v tr1 r t, plain x = true ->
+  eval w x en tr = Some (v, tr1) -> items_indist v = true ->
+  eval w (rev_sorted x) en tr = Some (r, t) ->
+  exists r', eval w (sorted_rev x) en tr = Some (r', t) /\ items_of r' = items_of r.
+Proof.
+  intros w x en tr v tr1 r t Hx Hev Hg H1. rewrite eval_rev_sorted in H1 by assumption.
+  rewrite eval_sorted_rev by assumption. rewrite Hev in *. unfold items_indist in Hg.
+  destruct (items_of v) as [l|]; [|discriminate]. destruct (sortable l); [|discriminate].
+  injection H1 as <- <-. eexists. split; [reflexivity|]. cbn. rewrite sort_rev by (apply indistb_spec; assumption).
+  reflexivity.
+Qed.
+
+Theorem chain3_refuted_stability :
+  exists x en, plain x = true /\
+    forall w, eval w (rev_sorted x) en [] = Some (VIter [VInt 1; VBool true], []) /\
+              eval w (sorted_rev x) en [] = Some (VList [VBool true; VInt 1], []).
+Proof.
+  exists (EName 1), (mkenv [(1%nat, VList [VBool true; VInt 1])]). split; [reflexivity|].
+  intros w. split; reflexivity.
+Qed.
